@@ -194,6 +194,8 @@ impl Beh {
 #[derive(Clone, Debug, PartialEq, Eq, Serialize, Deserialize)]
 enum MV {
     Fn(Beh),
+    /// a native (Rust) function made by `mknf`, tracing like a generated Koto function, returning the value
+    Native(RV),
     NonCallable,
     Chain(Vec<usize>, Option<Beh>),
 }
@@ -201,6 +203,7 @@ impl MV {
     fn sexp(&self) -> String {
         match self {
             MV::Fn(b) => format!("(f {})", b.sexp()),
+            MV::Native(v) => format!("(nat {})", v.sexp()),
             MV::NonCallable => "nc".into(),
             MV::Chain(m, b) => format!(
                 "(ch ({}) {})",
@@ -509,6 +512,10 @@ enum Op {
     Access(usize),
     Method(usize),
     AccessAssign(usize),
+    CallPacked,            // `x((7,)...)`
+    ApiIndexAssign(bool),  // KotoVm::run_write_op(WriteOp::IndexAssign, x, index, 5)
+    MatchLast,             // `match x` / `(others..., last) then last`
+    Literal,               // the operand's literal written with its data entries *after* the metakeys
 }
 
 #[derive(Clone, Debug, PartialEq, Eq, Serialize, Deserialize)]
@@ -554,6 +561,13 @@ impl Case {
             Op::Access(k) => format!("access {} {}", a, k),
             Op::Method(k) => format!("method {} {}", a, k),
             Op::AccessAssign(k) => format!("accessassign {} {}", a, k),
+            Op::CallPacked => format!("callpacked {}", a),
+            Op::ApiIndexAssign(n) => format!("apiindexassign {} {}", a, idx(*n)),
+            Op::MatchLast => format!("matchlast {}", a),
+            Op::Literal => match &self.a {
+                Opd::Map(ls) => format!("literal {}", ls[0].sexp()),
+                _ => "literal -".into(),
+            },
         }
     }
     fn op_class(&self) -> &'static str {
@@ -577,6 +591,10 @@ impl Case {
             Op::Access(_) => "access",
             Op::Method(_) => "method",
             Op::AccessAssign(_) => "accessassign",
+            Op::CallPacked => "callpacked",
+            Op::ApiIndexAssign(_) => "apiindexassign",
+            Op::MatchLast => "matchlast",
+            Op::Literal => "literal",
         }
     }
 }
@@ -603,6 +621,7 @@ fn render_mv(tag: usize, key: &str, mv: &MV, pre: &mut String, body: &mut String
     let (spell, params) = metakey_info(key);
     match mv {
         MV::NonCallable => body.push_str(&format!("  @{}: 42\n", spell)),
+        MV::Native(v) => body.push_str(&format!("  @{}: mknf('n{}', '{}', {})\n", spell, tag, key, v.koto())),
         MV::Fn(b) => {
             body.push_str(&format!("  @{}: |{}|\n", spell, params));
             let args = if params.is_empty() { String::new() } else { format!(", {}", params) };
@@ -809,6 +828,23 @@ fn render(c: &Case) -> String {
         Op::IndexAssign(n) => s.push_str(&format!("{}[{}] = 5\n", a, if *n { "0" } else { "'s'" })),
         Op::Access(k) => s.push_str(&format!("{}.{}\n", a, KEY_NAMES[*k])),
         Op::Method(k) => s.push_str(&format!("{}.{}(7)\n", a, KEY_NAMES[*k])),
+        Op::CallPacked => s.push_str(&format!("{}((7,)...)\n", a)),
+        Op::ApiIndexAssign(_) => s.push_str(&format!("{}\n", a)), // the API call follows in Rust
+        Op::MatchLast => s.push_str(&format!("match {}\n  (others..., last) then last\n", a)),
+        Op::Literal => {
+            // rewrite the operand's literal: metakeys first, data entries after them
+            if let Opd::Map(ls) = &c.a {
+                if let Src::Own(m) = &ls[0].src {
+                    let mut pre = String::new();
+                    let mut body = String::new();
+                    render_meta(m, m.tag, None, &mut pre, &mut body);
+                    render_data(&ls[0], &mut body);
+                    s = format!("{}n{} =\n{}", pre, ls[0].name, body);
+                    s.push_str(&format!("reg('n{}', n{})\n", ls[0].name, ls[0].name));
+                }
+            }
+            s.push_str(&format!("map.keys({}).to_tuple()\n", a));
+        }
         Op::AccessAssign(k) => {
             s.push_str(&format!("{}.{} = 5\n", a, KEY_NAMES[*k]));
             if matches!(c.a, Opd::Map(_)) {
@@ -1523,6 +1559,18 @@ fn run_case(c: &Case, script: &str) -> Result<Outcome, String> {
                 };
                 Ok(REGISTRY.with(|r| r.borrow().iter().rev().find(|(n, _)| *n == k).map(|(_, v)| v.clone()).unwrap_or(KValue::Null)))
             });
+            prelude.add_fn("mknf", |ctx| {
+                let (tag, key, ret) = match ctx.args() {
+                    [KValue::Str(t), KValue::Str(k), v] => (t.to_string(), k.to_string(), v.clone()),
+                    _ => ("?".to_string(), "?".to_string(), KValue::Null),
+                };
+                Ok(KValue::NativeFunction(KNativeFunction::new(move |ctx: &mut CallContext| {
+                    let slf = desc(ctx.instance());
+                    let rest: Vec<String> = ctx.args().iter().map(desc).collect();
+                    push_trace(format!("{}.{} self={} args=[{}]", tag, key, slf, rest.join(",")));
+                    Ok(ret.clone())
+                })))
+            });
             prelude.add_fn("tick", |ctx| {
                 let k = match ctx.args() {
                     [KValue::Str(s)] => s.to_string(),
@@ -1552,7 +1600,15 @@ fn run_case(c: &Case, script: &str) -> Result<Outcome, String> {
             .map_err(|e| format!("compile error: {}", e));
         let result = match chunk {
             Err(e) => format!("E:compile:{}", e),
-            Ok(chunk) => match vm.run(chunk) {
+            Ok(chunk) => match vm.run(chunk).and_then(|v| match &c.op {
+                // the operand is the script's value; the operation itself goes through the host API
+                Op::ApiIndexAssign(n) => {
+                    TRACE.with(|t| t.borrow_mut().clear());
+                    let index: KValue = if *n { 0.into() } else { "s".into() };
+                    vm.run_write_op(koto_runtime::WriteOp::IndexAssign, v, index, 5.into())
+                }
+                _ => Ok(v),
+            }) {
                 Ok(v) => {
                     let d = match (&c.op, &v) {
                         (Op::Display | Op::Debug, KValue::Str(s)) => shown_av(s.as_str()),
@@ -2805,6 +2861,16 @@ fn main() {
     let drv = Driver::spawn(&args.driver);
     let mut cx = Ctx { rep, drv, open, pending: vec![], known_counts: Default::default(), k_fail: 0, d_fail: 0, sampled: Default::default() };
 
+    // ad-hoc probe: `c17 … -- --script FILE` runs a script with the harness prelude (tr/reg/tick/getreg)
+    if let Some(i) = args.extra.iter().position(|x| x == "--script") {
+        let src = std::fs::read_to_string(&args.extra[i + 1]).expect("script file");
+        let dummy = Case { op: Op::Not, a: Opd::Prim(0, PrimK::Null), b: None };
+        match run_case(&dummy, &src) {
+            Ok(o) => println!("trace : {}\nresult: {}\nstdout: {}", o.trace.join(";"), o.result, o.stdout),
+            Err(p) => println!("panic: {}", p),
+        }
+        std::process::exit(0);
+    }
     if let Some(p) = &args.replay {
         let v: serde_json::Value = serde_json::from_str(&std::fs::read_to_string(p).expect("replay file")).unwrap();
         let case: Case = serde_json::from_value(v["detail"]["case"].clone()).expect("detail.case");
